@@ -57,6 +57,8 @@ def step (op : String) (args : List String) : Option String :=
       | .denied w => "denied:" ++ w
       | .errored => "errored"
       | .patched nets pa res zt =>
+        -- a result that equals what the pod already carries is an empty patch: the response is a plain "allowed"
+        if inp.annoNets == some nets && p.useENI && pa.isNone && res.isNone && zt.isEmpty then "allowed" else
         "patched nets=" ++ "+".intercalate (nets.map netStr) ++ " pn=" ++ pa.getD "-" ++
         " res=" ++ (match res with | some (n, k) => s!"{n}:{k}" | none => "-") ++
         " zones=" ++ (if zt.isEmpty then "-" else "|".intercalate (zt.map fun z => lstStr (sortDedup z))))
